@@ -20,10 +20,13 @@ NOTE = ("Trusted: the wrapper provider (counts calls per reference position). Sc
         "resolver's loop by design and are not judged (counted separately).")
 
 GRAMMAR = """
-Model: defs+=Def users*=User;
+Model: defs+=Def users*=User pairs*=Pair;
 Def: 'def' name=ID;
 User: 'user' name=ID ':' xs+=[Def][','] (';' ys+=[Def][','])?;
+Pair: head=Head '|' xs+=[Def][','] '.';
+Head: xs+=[Def]['&'];
 """
+# Pair / Head: a container and its first child start at the SAME offset and both own a reference list of the same attribute name
 
 _MM = {}
 
@@ -58,15 +61,32 @@ def shapes(N):
                 if len(set(p)) in (1, n1 + n2) or p == tuple(i % 2 for i in range(n1 + n2)):
                     yield [(p[:n1], p[n1:])]  # two lists in one object
                     yield [(p[:n1], None), (p[n1:], None)]  # lists in two objects
+                    yield [("pair", p[:n1], p[n1:])]  # lists of the same name in a container and in its first child (same start offset)
     return
 
 
 def render(shape):
     names = "abcdefgh"
-    used = sorted({t for u in shape for l in u if l for t in l})
+    used = sorted({t for u in shape for l in u if l and l != "pair" for t in l})
     text = " ".join("def %s" % names[t] for t in used)
     refpos = []  # (position, user idx, attr, target name)
-    for ui, (xs, ys) in enumerate(shape):
+    for ui, u_ in enumerate(shape):
+        if u_[0] == "pair":
+            text += " "
+            for i, t in enumerate(u_[1]):
+                if i:
+                    text += " & "
+                refpos.append((len(text), ui, "head.xs", names[t]))
+                text += names[t]
+            text += " | "
+            for i, t in enumerate(u_[2]):
+                if i:
+                    text += " , "
+                refpos.append((len(text), ui, "xs", names[t]))
+                text += names[t]
+            text += " ."
+            continue
+        xs, ys = u_
         text += " user u%d : " % ui
         for i, t in enumerate(xs):
             if i:
@@ -125,10 +145,12 @@ def run_case(shape, vec, kind):
         return False, obs
     expected, got = [], []
     defs = {d.name: d for d in m.defs}
-    for ui, u in enumerate(m.users):
-        for attr in ("xs", "ys"):
+    holders = [(ui, u, attr) for ui, u in enumerate(m.users) for attr in ("xs", "ys")]
+    holders += [(ui, u, attr) for ui, u in enumerate(m.pairs) for attr in ("head.xs", "xs")]
+    for ui, u, attr in holders:
+        if True:
             exp = [t for (_, uj, a, t) in refpos if uj == ui and a == attr]
-            val = getattr(u, attr)
+            val = getattr(u.head, "xs") if attr == "head.xs" else getattr(u, attr)
             expected.append(exp)
             got.append([getattr(v, "name", repr(v)) for v in val])
             if len(val) == len(exp) and any(v is not defs[t] for v, t in zip(val, exp)):
@@ -141,7 +163,7 @@ def run_case(shape, vec, kind):
 def work(arg):
     shape, K, kinds = arg
     u = Unit()
-    n = sum(len(l) for us in shape for l in us if l)
+    n = sum(len(l) for us in shape for l in us if l and l != "pair")
     vecs = sorted(itertools.product(range(K + 1), repeat=n), key=lambda v: (sum(v), v))
     for kind in kinds:
         for vec in vecs:
